@@ -14,7 +14,8 @@ C13 - Gibbs kernels draw from the exact full conditional.
 ``discrete``  liesel.model.goose.finite_discrete_gibbs_kernel: full product prior kind
               (FiniteDiscrete / Bernoulli / explicit outcomes) x outcome sets of size 2-4
               x prior-probability lattice x downstream likelihood (none / Normal mean /
-              mixture indicator / value of a weak variable with a distribution; 3 and 150+
+              mixture indicator / value of a weak variable with a distribution / diamond of
+              cached nodes sigma=f(z), mean=g(sigma,z) in both input orders; 3 and 150+
               observations) x lattice of the other current values; every ordered
               pair of states is run back to back on one kernel (history independence).
               The ``categorical`` seam records the logits and forces every outcome.
@@ -72,7 +73,7 @@ PROB_TOL = 1e-5
 def bounds(tier):
     return {
         "tau2": {"penalties": penalty_names(tier), "scaled_penalties_dim20": scaled_penalty_units(tier), "a": A_VALUES[tier], "b": B_VALUES[tier],
-                 "kernel": "built once per (penalty, a); b lattice, a second a and rank-1 reach it through the model state only", "betas_per_penalty": 6, "tau2_lattice": TAU2_LATTICE,
+                 "kernel": "built once per (penalty, a); b lattice, a second a, rank-1, a re-weighted same-rank penalty and a rank-one penalty (+rank) reach it through the model state only", "betas_per_penalty": 6, "tau2_lattice": TAU2_LATTICE,
                  "gamma_answers": GAMMA_ANSWERS, "real_keys_jit_vs_eager": 2 if tier == "quick" else 6},
         "discrete": {"specs": len(discrete_specs(tier)), "state_pairs": "all ordered pairs of the per-spec state lattice", "forced_outcomes": "all",
                      "real_keys_jit_vs_eager": 6 if tier == "quick" else 16},
@@ -92,6 +93,7 @@ PROBS = {
 }
 SUPPORTS = {2: [[0.0, 1.0], [-1.0, 2.5]], 3: [[0.0, 1.0, 2.0], [-1.0, 0.5, 2.0]], 4: [[0.0, 1.0, 2.0, 3.0]]}
 MEAN_THETAS = [{"slope": 1.0, "icpt": 0.0, "sd": 1.0}, {"slope": -2.0, "icpt": 1.0, "sd": 0.5}]
+DIAMOND_THETAS = [{"slope": 1.0, "icpt": 0.0, "sd": 1.0}, {"slope": -0.7, "icpt": 0.5, "sd": 0.6}]
 RESID_THETAS = [{"slope": 0.8, "icpt": 0.0, "sd": 1.3}, {"slope": -1.5, "icpt": 0.5, "sd": 0.6}]
 MIX_THETAS = [{"mus": [0.0, 1.0, 2.0, -1.0], "sds": [1.0, 1.0, 1.0, 1.0]}, {"mus": [1.0, 0.8, -3.0, 0.9], "sds": [0.3, 2.0, 1.0, 0.5]}]
 
@@ -118,6 +120,13 @@ def discrete_specs(tier):
     specs.append({"prior": "finite", "support": [0.0, 1.0, 2.0], "probs": PROBS[3], "explicit": None, "lik": "resid"})
     specs.append({"prior": "finite", "support": [-1.0, 2.5], "probs": PROBS[2][:2], "explicit": None, "lik": "resid"})
     specs.append({"prior": "bernoulli", "support": [0, 1], "probs": [0.7, 0.02], "explicit": None, "lik": "resid"})
+    # diamond of cached nodes between the variable and the likelihood (full product)
+    for order in ("sz", "zs"):
+        for sigma in ("calc", "wvar"):
+            for args in ("kw", "pos"):
+                specs.append({"prior": "finite", "support": [0.0, 1.0, 2.0], "probs": PROBS[3][:1], "explicit": None, "lik": "diamond", "order": order, "sigma": sigma, "args": args})
+    specs.append({"prior": "bernoulli", "support": [0, 1], "probs": [0.7], "explicit": None, "lik": "diamond", "order": "zs", "sigma": "calc", "args": "kw"})
+    specs.append({"prior": "bernoulli", "support": [0, 1], "probs": [0.7], "explicit": None, "lik": "diamond", "order": "sz", "sigma": "wvar", "args": "pos"})
     for s in specs:
         s["y"] = Y_OBS
     # large-magnitude joint log-densities (150 observations, log joint between about -200
@@ -135,7 +144,7 @@ def discrete_specs(tier):
 def spec_states(spec):
     """Lattice of 'all other current values' for a spec: list of theta dicts."""
     out = []
-    liks = {"none": [{}], "mean": MEAN_THETAS, "mixture": MIX_THETAS, "resid": RESID_THETAS}[spec["lik"]]
+    liks = {"none": [{}], "mean": MEAN_THETAS, "mixture": MIX_THETAS, "resid": RESID_THETAS, "diamond": DIAMOND_THETAS}[spec["lik"]]
     for p in spec["probs"]:
         for th in liks:
             out.append({"probs": p, **th})
@@ -235,7 +244,7 @@ def run_tau2(res: core.UnitResult, u: dict):
 
     _quiet()
     Kname, a0 = u["K"], u["a"]
-    K = ref.penalty(Kname)
+    K0 = K = ref.penalty(Kname)
     rk = ref.rank(K)
     if rk != ref.EXPECTED_RANK[Kname]:
         raise RuntimeError("reference rank differs from the hand-stated rank of the penalty")
@@ -259,19 +268,28 @@ def run_tau2(res: core.UnitResult, u: dict):
     if tuple(kernel.position_keys) != (tname,):
         raise RuntimeError(f"unexpected position keys {kernel.position_keys}")
     all_betas = list(enumerate(ref.betas(Kname)))
-    settings = [(a0, b, None, all_betas, "build" if b == b0 else "state-b") for b in u["bs"]]
-    settings.append((u["a_other"], u["bs"][1], None, [all_betas[0], all_betas[4]], "state-a"))
+    settings = [(a0, b, None, None, all_betas, "build" if b == b0 else "state-b") for b in u["bs"]]
+    settings.append((u["a_other"], u["bs"][1], None, None, [all_betas[0], all_betas[4]], "state-a"))
     if rk >= 1:
-        settings.append((a0, b0, rk - 1, [all_betas[0], all_betas[4]], "state-rank"))
+        settings.append((a0, b0, rk - 1, None, [all_betas[0], all_betas[4]], "state-rank"))
+        # the penalty itself changed in the state: re-weighted (same rank) ...
+        settings.append((a0, u["bs"][1], None, ref.reweighted(K0), [all_betas[1], all_betas[4]], "state-K-same-rank"))
+    # ... and of a different rank, together with the rank hyper-parameter
+    settings.append((a0, u["bs"][1], 1, ref.rank_one(K0), [all_betas[1], all_betas[4]], "state-K-rank-one"))
     rank_dtype = np.asarray(group["rank"].value).dtype
 
-    for si, (a, b, rank_state, betas, how) in enumerate(settings):
+    for si, (a, b, rank_state, K_state, betas, how) in enumerate(settings):
+        K = K0 if K_state is None else K_state
+        if K_state is not None and ref.rank(K) != (rk if rank_state is None else rank_state):
+            raise RuntimeError("penalty handed over in the state does not have the stated rank")
         model.vars[group["a"].name].value = a
         model.vars[group["b"].name].value = b
         model.vars[group["rank"].name].value = np.asarray(rk if rank_state is None else rank_state, dtype=rank_dtype)
+        model.vars[group["K"].name].value = jnp.asarray(K, dtype=jnp.float32)
         for bi, beta in betas:
             case = {"penalty": Kname, "K": K.tolist() if K.shape[0] <= 5 else f"{Kname} (dim {K.shape[0]})", "a": a, "b": b, "beta": beta,
-                    "rank_in_state": rk if rank_state is None else rank_state, "kernel_built_with": {"a": a0, "b": b0, "rank": rk}, "setting_reached_via": how}
+                    "rank_in_state": rk if rank_state is None else rank_state, "kernel_built_with": {"a": a0, "b": b0, "rank": rk, "K": Kname}, "setting_reached_via": how,
+                    "K_in_state": None if K_state is None else (K.tolist() if K.shape[0] <= 5 else how)}
 
             def bad(sig, msg, extra=None):
                 if sig in first:
@@ -418,6 +436,24 @@ def build_discrete_model(spec, theta):
         sd = lsl.Var(jnp.asarray(theta["sd"], jnp.float32), name="sd")
         loc = lsl.Var(lsl.Calc(lambda z, s, i: i + s * z, z, slope, icpt), name="loc")
         y = lsl.obs(jnp.asarray(ref.y_of(spec), jnp.float32), lsl.Dist(tfd.Normal, loc=loc, scale=sd), name="y")
+        gb.add(y)
+    elif spec["lik"] == "diamond":
+        # diamond of cached nodes between z and the likelihood: sigma = f(z) feeds the
+        # scale AND the mean; both input orders of the mean, sigma as cached Calc or weak
+        # Var, distribution arguments by keyword or by position
+        slope = lsl.Var(jnp.asarray(theta["slope"], jnp.float32), name="slope")
+        icpt = lsl.Var(jnp.asarray(theta["icpt"], jnp.float32), name="icpt")
+        sd = lsl.Var(jnp.asarray(theta["sd"], jnp.float32), name="sd")
+        sig_calc = lsl.Calc(lambda z, sd: sd * (1.0 + 0.25 * z * z), z, sd)
+        sigma = lsl.Var(sig_calc, name="sigma") if spec["sigma"] == "wvar" else sig_calc
+        if spec["order"] == "sz":
+            mean = lsl.Calc(lambda sg, z, s, i: i + s * z * sg, sigma, z, slope, icpt)
+        else:
+            mean = lsl.Calc(lambda z, sg, s, i: i + s * z * sg, z, sigma, slope, icpt)
+        if spec["sigma"] == "wvar":
+            mean = lsl.Var(mean, name="mean")
+        dist = lsl.Dist(tfd.Normal, loc=mean, scale=sigma) if spec["args"] == "kw" else lsl.Dist(tfd.Normal, mean, sigma)
+        y = lsl.obs(jnp.asarray(ref.y_of(spec), jnp.float32), dist, name="y")
         gb.add(y)
     elif spec["lik"] == "resid":
         # z enters the density through the VALUE of a weak variable that has a
